@@ -1,6 +1,7 @@
 /-
   The null-move clause and the table invariant WITHOUT the run-level hypothesis `GoSane`, for
-  parameter sets with `WindowSize = 44` whose reverse futility margin cannot wrap at depths ≤ 2.
+  parameter sets with a SAFE window size (`WSafe`: `39..44` or `78..88`; params.go has 44) whose reverse
+  futility margin cannot wrap at depth 1.
 
   `GoSane` (Proofs/SearchScoreGo.lean) asks every re-searched root window to be a `RootWin`
   (`beta ≤ 31597`, so that `beta + d*RFPScoreFactor` cannot wrap at ANY depth).  That is not derivable
@@ -8,14 +9,19 @@
   `beta + 512*44 > 31597`, and only the stability of the search excludes such a sequence.  What IS
   derivable (`AspInv`, `aspInv_step`): un-aborted results lie within `±Inf`, so a side of the window
   that has left `±Inf` cannot fail again; `factor` doubles at every failure, hence at any failure
-  `22·factor ≤ 19956`, i.e. `factor ≤ 512`: every window of every aspiration chain lies within
-  `±(Inf + 512·44) = ±32528`, nothing wraps in the window arithmetic, and a chain has at most ten
-  failures.  (For `WindowSize = 39` the same computation allows `factor = 1024` and a wrapping
-  widening `39·1024 > 32767`: 44 is the largest window size for which the chain is int16-safe.)
+  `W·factor/2 ≤ 20000 - W` (`fail_bound`).  For `W = 44` that is `factor ≤ 512`: every window of every
+  aspiration chain lies within `±(Inf + 512·44) = ±32528`, nothing wraps in the window arithmetic, and a
+  chain has at most ten failures.  The same computation for the other window sizes the spsa build admits
+  (`30..100`): `W ≤ 38` allows `factor = 1024` and a wrapping widening `38·1024 > 32767`; `39 ≤ W ≤ 44` gives
+  `factor ≤ 512`, widening `≤ 22528`: safe; `45 ≤ W ≤ 77` still allows `factor = 512` and `45·512 = 23040`
+  takes a bound at `∓10000` out of int16; `78 ≤ W ≤ 88` gives `factor ≤ 256`, widening `≤ 88·256 = 22528`:
+  safe; `W ≥ 89` allows `factor = 256`, `89·256 = 22784`: not safe.  So the argument goes through exactly
+  for `WSafe` (the unsafe sizes are not shown to misbehave on the real engine — the bound sequences are
+  arithmetic possibilities of the skeleton; they are what the run-level `GoSane` would have to exclude).
 
-  With windows bounded by 32528 reverse futility at the root is sound at depths 1 and 2
-  (`rfp_shallow`: `32528 + 2·102 ≤ 32767`), and that is all the null-move clause needs: the root
-  analysis "in-window result ⇒ non-empty PV or final root" is needed at iteration 1 only — from
+  With windows bounded by 32528 reverse futility at the root is sound at depth 1
+  (`rfp_shallow`: `32528 + 130 ≤ 32767` for every `RFPScoreFactor ≤ 130`), and that is all the null-move clause
+  needs: the root analysis "in-window result ⇒ non-empty PV or final root" is needed at iteration 1 only — from
   iteration 2 on an empty PV keeps the move of the previous iteration.  The final-SCORE clause is
   treated in Proofs/SearchFinalFree.lean (on a final root the chains of iteration ≥ 2 consist of
   fail-highs only and stay below `rfpSafe`).
@@ -27,71 +33,103 @@ namespace Search
 
 variable {σ π : Type} [PsInv σ] {t0 : Bool}
 
-/-- what the `GoSane`-free argument needs of the parameters. -/
+/-- **window sizes for which an aspiration chain is int16-safe**: `39..44` and `78..88`.  A failure at
+    `factor = f` needs `f·W ≤ 40000 - 2W` (`fail_bound`); the widening `f·W` must stay below `32767 - Inf`.
+    `W ≤ 38` admits `f = 1024` (`38·1024` wraps), `45 ≤ W ≤ 77` admits `f = 512` (`45·512 = 23040`: a bound at
+    `∓10000` widened by it leaves int16), `W ≥ 89` admits `f = 256` (`89·256 = 22784`, the same); for the two
+    intervals the largest admissible widening is `44·512 = 88·256 = 22528`. -/
+def WSafe (W : Int) : Prop := (39 ≤ W ∧ W ≤ 44) ∨ (78 ≤ W ∧ W ≤ 88)
+
+instance (W : Int) : Decidable (WSafe W) := inferInstanceAs (Decidable (_ ∨ _))
+
+/-- what the `GoSane`-free argument needs of the parameters: a safe window size (params.go: 44), and a
+    reverse futility margin that cannot wrap at depth 1 for `beta ≤ Inf + 22528` (all uses are at the root
+    of iteration 1). -/
 structure AspLaws (c : Comp σ π) : Prop where
-  window44 : c.windowSize = 44
-  rfp_shallow : ∀ d se beta, 0 ≤ d → d ≤ 2 → beta ≤ 32528 → c.rfpCut d se beta = true → beta ≤ se
+  windowSafe : WSafe c.windowSize
+  rfp_shallow : ∀ d se beta, 0 ≤ d → d ≤ 1 → beta ≤ 32528 → c.rfpCut d se beta = true → beta ≤ se
 
 /-- the values `factor` takes. -/
 def Pow2 (f : Int) : Prop :=
   f = 1 ∨ f = 2 ∨ f = 4 ∨ f = 8 ∨ f = 16 ∨ f = 32 ∨ f = 64 ∨ f = 128 ∨ f = 256 ∨ f = 512 ∨ f = 1024
 
-/-- The windows an aspiration chain can reach: the initial window, or `(s - 44 - lo, s + 44 + hi)`
-    around an in-range score `s`, widened by `lo + hi = 44·(factor - 1)` in total, where a side that was
-    widened was within `±Inf` before its last widening (which was at most `22·factor`). -/
-def AspInv (alpha beta f : Int) : Prop :=
+/-- The windows an aspiration chain with window size `W` can reach: the initial window, or
+    `(s - W - lo, s + W + hi)` around an in-range score `s`, widened by `lo + hi = W·(factor - 1)` in total,
+    where a side that was widened was within `±Inf` before its last widening (which was at most
+    `W·factor/2`); `factor·W ≤ 2·22528`. -/
+def AspInv (W alpha beta f : Int) : Prop :=
   (alpha = -10001 ∧ beta = 10001 ∧ f = 1) ∨
-  ∃ s lo hi : Int, InR s ∧ 0 ≤ lo ∧ 0 ≤ hi ∧ alpha = s - 44 - lo ∧ beta = s + 44 + hi ∧ Pow2 f ∧
-    lo + hi = 44 * (f - 1) ∧ (lo = 0 ∨ 2 * lo ≤ 2 * (s + 9956) + 44 * f) ∧ (hi = 0 ∨ 2 * hi ≤ 2 * (9956 - s) + 44 * f)
+  ∃ s lo hi : Int, InR s ∧ 0 ≤ lo ∧ 0 ≤ hi ∧ alpha = s - W - lo ∧ beta = s + W + hi ∧ Pow2 f ∧ f * W ≤ 45056 ∧
+    lo + hi = f * W - W ∧ (lo = 0 ∨ 2 * lo ≤ 2 * (s + 10000 - W) + f * W) ∧ (hi = 0 ∨ 2 * hi ≤ 2 * (10000 - W - s) + f * W)
 
 omit [PsInv σ] in
 theorem pow2_range {f : Int} (h : Pow2 f) : 1 ≤ f ∧ f ≤ 1024 := by
   unfold Pow2 at h; omega
 
-theorem aspInv_init : AspInv (-Inf - 1) (Inf + 1) 1 := Or.inl ⟨rfl, rfl, rfl⟩
+omit [PsInv σ] in
+/-- the arithmetic heart: a failure at factor `f` needs `f·W ≤ 40000 - 2W` (both sides of the window were
+    within `±Inf` before their last widening), and for a safe window size that bounds the widening by
+    22528 and the factor by 512. -/
+theorem fail_bound {W f : Int} (hW : WSafe W) (hp : Pow2 f) (h : f * W ≤ 40000 - 2 * W) :
+    f * W ≤ 22528 ∧ f ≤ 512 ∧ Pow2 (f * 2) ∧ f * 2 * W = 2 * (f * W) := by
+  unfold WSafe at hW
+  unfold Pow2 at hp
+  refine ⟨?_, ?_, ?_, by rw [Int.mul_comm f 2, Int.mul_assoc]⟩
+  · rcases hp with rfl | rfl | rfl | rfl | rfl | rfl | rfl | rfl | rfl | rfl | rfl <;> omega
+  · rcases hp with rfl | rfl | rfl | rfl | rfl | rfl | rfl | rfl | rfl | rfl | rfl <;> omega
+  · rcases hp with rfl | rfl | rfl | rfl | rfl | rfl | rfl | rfl | rfl | rfl | rfl <;>
+      first | (exfalso; omega) | (unfold Pow2; decide)
 
-/-- every reachable window is workable and bounded by `Inf + 512·44`. -/
-theorem aspInv_win {a b f : Int} (h : AspInv a b f) : WinOK a b ∧ b ≤ 32528 := by
-  rcases h with ⟨ha, hb, _⟩ | ⟨s, lo, hi, hs, h1, h2, ha, hb, hp, hsum, hlo, hhi⟩
+theorem aspInv_init {W : Int} : AspInv W (-Inf - 1) (Inf + 1) 1 := Or.inl ⟨rfl, rfl, rfl⟩
+
+/-- every reachable window is workable and bounded by `Inf + 22528`. -/
+theorem aspInv_win {W a b f : Int} (hW : WSafe W) (h : AspInv W a b f) : WinOK a b ∧ b ≤ 32528 := by
+  rcases h with ⟨ha, hb, _⟩ | ⟨s, lo, hi, hs, h1, h2, ha, hb, hp, hfw, hsum, hlo, hhi⟩
   · subst ha; subst hb; unfold WinOK; omega
-  · have := pow2_range hp
-    unfold InR at hs
+  · unfold InR at hs
+    unfold WSafe at hW
+    generalize f * W = p at *
     unfold WinOK; omega
 
 /-- the first window of an iteration after an in-range score. -/
-theorem aspInv_first {s : Int} (hs : InR s) : AspInv (wrapS16 (s - 44)) (wrapS16 (s + 44)) 1 := by
+theorem aspInv_first {W s : Int} (hW : WSafe W) (hs : InR s) : AspInv W (wrapS16 (s - W)) (wrapS16 (s + W)) 1 := by
   have hs' := hs
   unfold InR at hs'
+  unfold WSafe at hW
   rw [wrapS16_id (by omega) (by omega), wrapS16_id (by omega) (by omega)]
-  exact Or.inr ⟨s, 0, 0, hs, Int.le_refl _, Int.le_refl _, by omega, by omega, Or.inl rfl, by omega, by omega, by omega⟩
+  exact Or.inr ⟨s, 0, 0, hs, Int.le_refl _, Int.le_refl _, by omega, by omega, Or.inl rfl, by omega, by omega, by omega, by omega⟩
 
 /-- one failed search: the widened window is again reachable. -/
-theorem aspInv_step {a b f sample : Int} (h : AspInv a b f) (hs : InR sample)
+theorem aspInv_step {W a b f sample : Int} (hW : WSafe W) (h : AspInv W a b f) (hs : InR sample)
     (hout : sample ≤ a ∨ b ≤ sample) :
-    AspInv (if sample ≤ a then wrapS16 (a - wrapS16 (f * 44)) else a)
-      (if sample ≤ a then b else if sample ≥ b then wrapS16 (b + wrapS16 (f * 44)) else b) (wrapS16 (f * 2)) := by
+    AspInv W (if sample ≤ a then wrapS16 (a - wrapS16 (f * W)) else a)
+      (if sample ≤ a then b else if sample ≥ b then wrapS16 (b + wrapS16 (f * W)) else b) (wrapS16 (f * 2)) := by
   unfold InR at hs
-  rcases h with ⟨ha, hb, _⟩ | ⟨s, lo, hi, hsr, h1, h2, ha, hb, hp, hsum, hlo, hhi⟩
+  have hW' := hW
+  unfold WSafe at hW'
+  rcases h with ⟨ha, hb, _⟩ | ⟨s, lo, hi, hsr, h1, h2, ha, hb, hp, hfw, hsum, hlo, hhi⟩
   · omega
   · have hsr' := hsr
     unfold InR at hsr'
+    have hf1 := (pow2_range hp).1
+    have hfb : f * W ≤ 40000 - 2 * W := by
+      generalize f * W = p at *
+      omega
+    obtain ⟨hb1, hb2, hb3, hb4⟩ := fail_bound hW hp hfb
+    have hp0 : W ≤ f * W := by
+      have := Int.mul_le_mul_of_nonneg_right hf1 (show (0 : Int) ≤ W by omega)
+      omega
+    rw [wrapS16_id (x := f * 2) (by omega) (by omega)]
     by_cases hle : sample ≤ a
-    · -- fail low: alpha was within ±Inf
-      have hf : f ≤ 907 := by omega
-      have hf2 : f ≤ 512 := by unfold Pow2 at hp; omega
-      have hf1 := (pow2_range hp).1
-      rw [if_pos hle, if_pos hle, wrapS16_id (x := f * 44) (by omega) (by omega),
-        wrapS16_id (x := a - f * 44) (by omega) (by omega), wrapS16_id (x := f * 2) (by omega) (by omega)]
-      refine Or.inr ⟨s, lo + f * 44, hi, hsr, by omega, h2, by omega, hb, ?_, by omega, by omega, by omega⟩
-      unfold Pow2 at hp ⊢; omega
+    · rw [if_pos hle, if_pos hle]
+      generalize f * W = p at *
+      rw [wrapS16_id (x := p) (by omega) (by omega), wrapS16_id (x := a - p) (by omega) (by omega)]
+      exact Or.inr ⟨s, lo + p, hi, hsr, by omega, h2, by omega, hb, hb3, by omega, by omega, by omega, by omega⟩
     · have hge : sample ≥ b := by omega
-      have hf : f ≤ 907 := by omega
-      have hf2 : f ≤ 512 := by unfold Pow2 at hp; omega
-      have hf1 := (pow2_range hp).1
-      rw [if_neg hle, if_neg hle, if_pos hge, wrapS16_id (x := f * 44) (by omega) (by omega),
-        wrapS16_id (x := b + f * 44) (by omega) (by omega), wrapS16_id (x := f * 2) (by omega) (by omega)]
-      refine Or.inr ⟨s, lo, hi + f * 44, hsr, h1, by omega, ha, by omega, ?_, by omega, by omega, by omega⟩
-      unfold Pow2 at hp ⊢; omega
+      rw [if_neg hle, if_neg hle, if_pos hge]
+      generalize f * W = p at *
+      rw [wrapS16_id (x := p) (by omega) (by omega), wrapS16_id (x := b + p) (by omega) (by omega)]
+      exact Or.inr ⟨s, lo, hi + p, hsr, h1, by omega, ha, by omega, hb3, by omega, by omega, by omega, by omega⟩
 
 omit [PsInv σ] in
 /-- the aspiration loop answers `.aborted` only with the abort flag set. -/
@@ -122,7 +160,7 @@ theorem aspiration_aborted (c : Comp σ π) (L : Limits) (fuel : Nat) (idD : Int
 theorem aspiration_free (c : Comp σ π) (L : Limits) {Good : Board → Prop} {TTok : σ → Prop} {μ : Board → Nat}
     (hl : Laws c Good) (sl : ScoreLaws c Good TTok μ) (al : AspLaws c) (fuel : Nat) (idD : Int) :
     ∀ (n : Nat) (alpha beta factor : Score) (s : St σ), Good s.board → TTA TTok t0 s →
-      (s.nmpOut = false → AspInv alpha beta factor) →
+      (s.nmpOut = false → AspInv c.windowSize alpha beta factor) →
       TTA TTok t0 (aspiration c L fuel idD n alpha beta factor s).st ∧
       (∀ al be sa s', aspiration c L fuel idD n alpha beta factor s = .ok al be sa s' → s'.nmpOut = false →
         InR sa ∧ (idD = 1 → RootOut' c.keys s.board s')) := by
@@ -135,10 +173,10 @@ theorem aspiration_free (c : Comp σ π) (L : Limits) {Good : Board → Prop} {T
     intro alpha beta factor s hg htt hinv
     have hab := alphaBeta_spec c L hl fuel alpha beta idD 0 .pv s hg htt.1 (Int.le_refl 0)
     have hrg := alphaBeta_range c L hl sl fuel alpha beta idD 0 .pv s hg (Int.le_refl 0) (by decide)
-      (fun hA => (aspInv_win (hinv hA)).1) htt
+      (fun hA => (aspInv_win al.windowSafe (hinv hA)).1) htt
     have hroot := fun (hb32 : beta ≤ 32528) (h1 : idD = 1) => alphaBeta_root_gen c L hl sl fuel alpha beta idD (by omega)
-      (fun se h => al.rfp_shallow idD se beta (by omega) (by omega) hb32 h) s (fun hA => (aspInv_win (hinv hA)).1) hg htt
-    simp only [aspiration, al.window44]
+      (fun se h => al.rfp_shallow idD se beta (by omega) (by omega) hb32 h) s (fun hA => (aspInv_win al.windowSafe (hinv hA)).1) hg htt
+    simp only [aspiration]
     simp only at hroot
     generalize alphaBeta c L fuel alpha beta idD 0 .pv s = r at hab hrg hroot ⊢
     have haf := abort_frame L r.2
@@ -165,7 +203,7 @@ theorem aspiration_free (c : Comp σ π) (L : Limits) {Good : Board → Prop} {T
         have hgt : alpha < r.1 := Int.not_le.1 hin.1
         have hlt : r.1 < beta := Int.not_le.1 hin.2
         refine ⟨hsr hA, fun h1 => ?_⟩
-        rcases hroot (aspInv_win (hinv (hback hA))).2 h1 hrab (by rw [← han]; exact hA) hgt hlt with h | h
+        rcases hroot (aspInv_win al.windowSafe (hinv (hback hA))).2 h1 hrab (by rw [← han]; exact hA) hgt hlt with h | h
         · exact Or.inl (by rw [hap]; exact h)
         · exact Or.inr h
       · next hnin =>
@@ -175,7 +213,7 @@ theorem aspiration_free (c : Comp σ π) (L : Limits) {Good : Board → Prop} {T
           · by_cases h2 : beta ≤ r.1
             · exact Or.inr h2
             · exfalso; apply hnin; simp [h1, h2]
-        have hstep := fun (hA : as.2.nmpOut = false) => aspInv_step (hinv (hback hA)) (hsr hA) hout
+        have hstep := fun (hA : as.2.nmpOut = false) => aspInv_step al.windowSafe (hinv (hback hA)) (hsr hA) hout
         have hb2 : as.2.board = s.board := by rw [haf.board, hab.1.board]
         have := ih _ _ _ as.2 (by rw [hb2]; exact hg) htt2 hstep
         rw [hb2] at this
@@ -187,7 +225,7 @@ theorem idLoop_free (c : Comp σ π) (L : Limits) (clock : Clock) {Good : Board 
     (hl : Laws c Good) (sl : ScoreLaws c Good TTok μ) (al : AspLaws c) (fuel : Nat) (b : Board) (hg : Good b)
     (hd : 1 ≤ L.depth) :
     ∀ (n : Nat) (idD : Int) (v : IDVars) (s : St σ), s.board = b → 0 ≤ idD → (n : Int) + idD = 64 →
-      TTA TTok t0 s → (s.nmpOut = false → AspInv v.alpha v.beta 1) →
+      TTA TTok t0 s → (s.nmpOut = false → AspInv c.windowSize v.alpha v.beta 1) →
       (s.nmpOut = false → 2 ≤ idD → v.move ≠ 0 ∨ Final c.keys b) →
       TTA TTok t0 (idLoop c L clock fuel n idD v s).st ∧
       ((idLoop c L clock fuel n idD v s).st.nmpOut = false → (idLoop c L clock fuel n idD v s).move = 0 → Final c.keys b) := by
@@ -262,8 +300,8 @@ theorem idLoop_free (c : Comp σ π) (L : Limits) (clock : Clock) {Good : Board 
           · push_cast at hn ⊢; omega
           · exact htt'.congr rfl rfl
           · intro hA
-            show AspInv (wrapS16 (sample - c.windowSize)) (wrapS16 (sample + c.windowSize)) 1
-            rw [al.window44]; exact aspInv_first (hokc' hA).1
+            show AspInv c.windowSize (wrapS16 (sample - c.windowSize)) (wrapS16 (sample + c.windowSize)) 1
+            exact aspInv_first al.windowSafe (hokc' hA).1
           · intro hA h2
             have hA' : s'.nmpOut = false := hA
             show pickMove (s'.pv.row 0) v.move ≠ 0 ∨ Final c.keys b
